@@ -7,8 +7,14 @@
         → (EDGE…)                                                (time, id) order
     (tconn (table ((min max limit) (EDGE…)) …) tc selPI selTC first last AFTERS BEFORES atOrAfter beforeT)
         → (error class) | crash | (ok (EDGE…) PI tc (calls (min max limit) …))
-          AFTERS/BEFORES = none | (s "<string>" invalid) | (s "<string>" (nano "id"))
+          AFTERS/BEFORES = none | (s "<string>" model) | (s "<string>" invalid) | (s "<string>" (nano "id"))
+          (`model`: the driver decodes the string itself with the codec model, `decT`; the other two
+          forms carry the real DeserializeCursor's answer and are used when the id is not UTF-8)
           PI = none | (pi hasPrev hasNext START END),  START/END = none | (nano "id")
+
+    (twalk fwd|bwd (table …) tc n fuel atOrAfter beforeT)   -- C09/Walk.lean's client over the time-based
+        → none | (ok ((EDGE…)…) (sent "<cursor>"…))            connection with the CONCRETE codec (decT/encT):
+                                                               pages in connection order, cursor strings sent
 
   `table` lists the replies of the harness's EdgeGetter for the (min, max, limit) triples it
   received (the getter is a parameter of the model); an unlisted triple is answered with [].
@@ -18,6 +24,8 @@ import ApiFu.Common.Sexp
 import ApiFu.Common.Loop
 import ApiFu.C16.Model
 import ApiFu.C16.Spec
+import ApiFu.C09.CodecDriver
+import ApiFu.C09.Walk
 
 open ApiFu ApiFu.C09 ApiFu.C16
 
@@ -57,10 +65,26 @@ def ofCurs (cs : List Cur) : Sexp := Sexp.list (cs.map ofCur)
 
 def ofQuery (q : Query) : Sexp := Sexp.list [Sexp.ofInt q.minTime, Sexp.ofInt q.maxTime, Sexp.ofInt q.limit]
 
+/-- `reflect.TypeOf(apifu.TimeBasedCursor{})` (= `ApiFu.C16.tbcTy` of PropsCodec.lean). -/
+def tbcTy : ApiFu.C09.Codec.Ty := .struct [([78, 97, 110, 111], .int .w64), ([73, 100], .str)]
+
+/-- `DeserializeCursor(TimeBasedCursor, s)` through the codec model. The driver's ids are Lean
+    strings: the harness asks for this only when the id is valid UTF-8 (or the cursor is invalid). -/
+def decT (s : String) : Option Cur :=
+  match ApiFu.C09.Codec.cursorDec tbcTy s with
+  | some (.struct [.int n, .str b]) => (String.fromUTF8? (ByteArray.mk b.toArray)).map fun id => { nano := n, id := id }
+  | _ => none
+
+/-- `SerializeCursor(TimeBasedCursor{…})` through the codec model (the id's UTF-8 bytes). -/
+def encT (c : Cur) : String :=
+  ApiFu.C09.Codec.cursorEnc tbcTy (.struct [.int c.nano, .str c.id.toUTF8.toList])
+
 /-- `(s "<string>" D)` → the argument string and the decoder's answer for it. -/
 def curArg? : Sexp → Option (Option String × Option Cur)
   | Sexp.atom "none" => some (none, none)
   | Sexp.list [Sexp.atom "s", Sexp.atom str, Sexp.atom "invalid"] => some (some str, none)
+  -- the cursor string is decoded by the codec model (C09/Codec.lean at TimeBasedCursor), not by the harness
+  | Sexp.list [Sexp.atom "s", Sexp.atom str, Sexp.atom "model"] => some (some str, decT str)
   | Sexp.list [Sexp.atom "s", Sexp.atom str, d] => (cur? d).map (fun c => (some str, some c))
   | _ => none
 
@@ -116,7 +140,35 @@ def handle (line : String) : String :=
         toString (Sexp.node "ok" [ofCurs c.edges, piSexp c.pageInfo, ofOptInt c.totalCount,
                                   Sexp.node "calls" ((getterCalls ta c.calls).map ofQuery)])
     | _, _, _, _, _, _, _, _ => "bad-op"
-  | _ => "bad-op"
+  | some (Sexp.list [Sexp.atom "twalk", Sexp.atom dir, Sexp.list (Sexp.atom "table" :: tbl), tc, n, fuel, t1, t2]) =>
+    match tbl.mapM tableEntry?, optInt? tc, n.nat?, fuel.nat?, optInt? t1, optInt? t2 with
+    | some tbl, some tc, some n, some fuel, some t1, some t2 =>
+      if dir != "fwd" && dir != "bwd" then "bad-op" else
+      let g : Int → Int → Int → List Cur := fun mn mx lim =>
+        match tbl.find? (fun e => e.1 == (mn, mx, lim)) with
+        | some e => e.2
+        | none => []
+      let app := timeApp g t1 t2 tc
+      -- the client of C09/Walk.lean over the time-based connection, with the concrete codec
+      if dir == "fwd" then
+        match walkForward (ltC ltStr) (isort (ltC ltStr)) decT encT app .window n fuel none with
+        | none => "none"
+        | some pages =>
+          toString (Sexp.node "ok" [Sexp.list (pages.map ofCurs),
+            Sexp.node "sent" (pages.dropLast.map fun p => Sexp.atom (match p.getLast? with | some c => encT c | none => ""))])
+      else
+        match walkBackward (ltC ltStr) (isort (ltC ltStr)) decT encT app .window n fuel none with
+        | none => "none"
+        | some pages =>
+          toString (Sexp.node "ok" [Sexp.list (pages.map ofCurs),
+            Sexp.node "sent" ((pages.drop 1).reverse.map fun p => Sexp.atom (match p.head? with | some c => encT c | none => ""))])
+    | _, _, _, _, _, _ => "bad-op"
+  | some x =>
+    -- the cursor codec operations (b64enc, b64dec, cursor-enc, cursor-dec): C09/CodecDriver.lean
+    match ApiFu.C09.Codec.Driver.handle? x with
+    | some r => r
+    | none => "bad-op"
+  | none => "bad-op"
 
 end ApiFu.C16.Driver
 
